@@ -44,7 +44,7 @@ struct Screen {
 fn help_screen(parser: &bpaf::OptionParser<V>, help_item: &str) -> Result<String, Outcome> {
     let argv = vec![help_item.as_bytes().to_vec()];
     let os = crate::outcome::to_os(&argv);
-    let (res, _) = guarded(0, || match parser.run_inner(Args::from(os.as_slice())) {
+    let (res, _) = guarded(RENDER_FUEL, || match parser.run_inner(Args::from(os.as_slice())) {
         Err(ParseFailure::Stdout(doc, _)) => Ok(format!("{:60000}", doc)),
         other => Err(crate::outcome::normalise(other).0),
     });
